@@ -557,6 +557,8 @@ EntriesSeq == {SymE(R(<<"a">>), R(<<".">>)),
                SymE(R(<<"..", "s">>), A(<<"a">>)),
                Reg(R(<<"a", "x">>)),
                SymE(R(<<"b", "y", "s">>), A(<<"a">>)),      \* a link whose missing parent directories lie below "b"
+               SymE(R(<<"b">>), R(<<"a", "..", "x">>)),     \* lexically inside, physically a not yet existing file next to the target
+               Reg(R(<<"b">>)),                             \* a regular entry with the name of an earlier (possibly dangling) link
                DirE(R(<<"b">>))}
 \* thorough: the same plus rejected targets, absolute spellings, long names, loops, big files, deeper links
 EntriesSeqBig == EntriesSeq \cup
